@@ -127,8 +127,10 @@ struct SimCore
             IterStat& st = c.stats[c.cur_iter];
             ++st.nz;
             ++st.fin;
-            r.f = 0.75L;
-            return T(0.75);
+            long double const zero = 0;
+            T const f = static_cast<T>(script_value(p, &zero, 1, 0, 0));   // the constant of the script
+            r.f = f;
+            return f;
         }
 
         long double xl[MAXD];
